@@ -17,6 +17,7 @@ package circuitbreaker
 import (
 	"math"
 	"reflect"
+	"sync"
 	"sync/atomic"
 
 	"github.com/alibaba/sentinel-golang/core/base"
@@ -178,6 +179,9 @@ type circuitBreakerBase struct {
 	curProbeNumber uint64
 	// state is the state machine of circuit breaker
 	state *State
+	// probeMu orders the counting of a successful probe with the transitions that end a passage to
+	// half-open and reset the count (see probeSucceeded).
+	probeMu sync.Mutex
 }
 
 func (b *circuitBreakerBase) BoundRule() *Rule {
@@ -216,8 +220,26 @@ func (b *circuitBreakerBase) probeCompletedUncounted(failed bool, failedSnapshot
 		b.fromHalfOpenToOpen(failedSnapshot)
 		return
 	}
-	b.addCurProbeNum()
-	if b.probeNumber == 0 || atomic.LoadUint64(&b.curProbeNumber) >= b.probeNumber {
+	b.probeSucceeded(b.state.word(), resetMetric)
+}
+
+// probeSucceeded counts a successful completion for the passage to half-open the caller found the breaker
+// in (halfOpenWord, the state word it read) and closes the breaker when that makes the required number.
+// Counting and the transitions that reset the count exclude each other: counted apart from them, a success
+// that was slow to be counted went into the count of the NEXT passage after a failed probe had re-opened
+// the breaker (which then closed one successful probe early), and of two probes that both made the number
+// both cleared the statistic - the second one after the breaker had been closed, erasing what the new
+// closed period had counted by then.
+func (b *circuitBreakerBase) probeSucceeded(halfOpenWord int32, resetMetric func()) {
+	b.probeMu.Lock()
+	defer b.probeMu.Unlock()
+	if State(halfOpenWord&stateMask) != HalfOpen || b.state.word() != halfOpenWord {
+		// the passage this completion belongs to is over
+		return
+	}
+	if n := atomic.AddUint64(&b.curProbeNumber, 1); b.probeNumber == 0 || n >= b.probeNumber {
+		// (the statistic is cleared BEFORE the breaker is seen closed: a completion that found it closed
+		// and the old counts still in place opened it again on the spot)
 		resetMetric()
 		b.fromHalfOpenToClosed()
 	}
@@ -303,8 +325,13 @@ func (b *circuitBreakerBase) fromOpenToHalfOpen(openWord int32, ctx *base.EntryC
 func (b *circuitBreakerBase) fromHalfOpenToOpen(snapshot interface{}) bool {
 	// See fromClosedToOpen: the deadline must be in place before Open is visible.
 	b.updateNextRetryTimestamp()
-	if b.state.cas(HalfOpen, Open) {
+	b.probeMu.Lock()
+	won := b.state.cas(HalfOpen, Open)
+	if won {
 		b.resetCurProbeNum()
+	}
+	b.probeMu.Unlock()
+	if won {
 		b.updateNextRetryTimestamp()
 		for _, listener := range stateChangeListeners {
 			listener.OnTransformToOpen(HalfOpen, *b.rule, snapshot)
@@ -418,7 +445,8 @@ func (b *slowRtCircuitBreaker) OnRequestComplete(rt uint64, _ error) {
 	slowRatio := float64(slowCount) / float64(totalCount)
 
 	// handleStateChange
-	curStatus := b.CurrentState()
+	stateWord := b.state.word()
+	curStatus := State(stateWord & stateMask)
 	if curStatus == Open {
 		return
 	} else if curStatus == HalfOpen {
@@ -426,14 +454,7 @@ func (b *slowRtCircuitBreaker) OnRequestComplete(rt uint64, _ error) {
 			// fail to probe
 			b.fromHalfOpenToOpen(1.0)
 		} else {
-			b.addCurProbeNum()
-			if b.probeNumber == 0 || atomic.LoadUint64(&b.curProbeNumber) >= b.probeNumber {
-				// succeed to probe
-				// (the statistic is cleared BEFORE the breaker is seen closed: a completion that found it closed
-				// and the old counts still in place opened it again on the spot)
-				b.resetMetric()
-				b.fromHalfOpenToClosed()
-			}
+			b.probeSucceeded(stateWord, b.resetMetric)
 		}
 		return
 	}
@@ -623,19 +644,14 @@ func (b *errorRatioCircuitBreaker) OnRequestComplete(_ uint64, err error) {
 	errorRatio := float64(errorCount) / float64(totalCount)
 
 	// handleStateChangeWhenThresholdExceeded
-	curStatus := b.CurrentState()
+	stateWord := b.state.word()
+	curStatus := State(stateWord & stateMask)
 	if curStatus == Open {
 		return
 	}
 	if curStatus == HalfOpen {
 		if err == nil {
-			b.addCurProbeNum()
-			if b.probeNumber == 0 || atomic.LoadUint64(&b.curProbeNumber) >= b.probeNumber {
-				// (the statistic is cleared BEFORE the breaker is seen closed: a completion that found it closed
-				// and the old counts still in place opened it again on the spot)
-				b.resetMetric()
-				b.fromHalfOpenToClosed()
-			}
+			b.probeSucceeded(stateWord, b.resetMetric)
 		} else {
 			b.fromHalfOpenToOpen(1.0)
 		}
@@ -819,19 +835,14 @@ func (b *errorCountCircuitBreaker) OnRequestComplete(_ uint64, err error) {
 		totalCount += atomic.LoadUint64(&c.totalCount)
 	}
 	// handleStateChangeWhenThresholdExceeded
-	curStatus := b.CurrentState()
+	stateWord := b.state.word()
+	curStatus := State(stateWord & stateMask)
 	if curStatus == Open {
 		return
 	}
 	if curStatus == HalfOpen {
 		if err == nil {
-			b.addCurProbeNum()
-			if b.probeNumber == 0 || atomic.LoadUint64(&b.curProbeNumber) >= b.probeNumber {
-				// (the statistic is cleared BEFORE the breaker is seen closed: a completion that found it closed
-				// and the old counts still in place opened it again on the spot)
-				b.resetMetric()
-				b.fromHalfOpenToClosed()
-			}
+			b.probeSucceeded(stateWord, b.resetMetric)
 		} else {
 			b.fromHalfOpenToOpen(1)
 		}
